@@ -5,6 +5,8 @@
 package generator
 
 import (
+	"path"
+
 	"github.com/basecomplextech/spec/internal/lang/model"
 )
 
@@ -39,6 +41,10 @@ func (w *fileWriter) file(file *model.File) error {
 
 	for _, imp := range file.Imports {
 		pkg := importPackage(imp)
+		if imp.Name != path.Base(pkg) {
+			w.linef(`%v "%v"`, imp.Name, pkg) // the code refers to the import by its name or alias
+			continue
+		}
 		w.linef(`"%v"`, pkg)
 	}
 	w.line(")")
